@@ -47,7 +47,21 @@ def react_cases(tier, rng):
         menu = pick_menu(rng, rng.randint(1, 3)); ents = [0, 1, 2][:rng.randint(1, 3)]
         L = rng.randint(6, 14)
         al = ops_alphabet(menu, ents)
-        yield (one(menu, ents, L, lambda aids_: [(rng.choice(aids_), rng.choice(kinds), rng.choice([-1] + ents), rng.choice(al)) for _ in range(rng.randint(1, 4))]), 'random-reactions')
+        def reacts(aids_):
+            rs = [(rng.choice(aids_), rng.choice(kinds), rng.choice([-1] + ents), rng.choice(al)) for _ in range(rng.randint(1, 4))]
+            # a rebuild closes the episodes of several context types in the order in which Bevy runs the per-type
+            # observers (a hash-map order the model does not have): two reactions to closing events whose
+            # operations do not commute would make the final world depend on it, so with a rebuild and more than
+            # one context type at most one reaction listens to a terminal event
+            if len(menu) >= 2 and any(r[3] == REBUILD for r in rs):
+                seen = False
+                for i, r in enumerate(rs):
+                    if r[1] in ('ECanceled', 'ECompleted'):
+                        if seen:
+                            rs[i] = (r[0], rng.choice(kinds[:3]), r[2], r[3])
+                        seen = True
+            return rs
+        yield (one(menu, ents, L, reacts), 'random-reactions')
 
 def nontrivial(case, out):
     return ('ECanceled' in out or 'ECompleted' in out)
